@@ -48,7 +48,9 @@ CORPUS = [
     # the liquid tag serialises its line statements from tokens, not from the AST: every literal kind again, with the other quote inside
     "{% liquid\n echo \"it's\"\n echo 'q\"r'\n assign w = \"a' | upcase | append: 'b\"\n echo w\n echo \"x\\\"y\" | append: 'a\\'b'\n echo \"v${x}w\"\n echo 'n=${ x | plus: 1 }' | append: \"'\"\n%}",
     "{% liquid\n echo a | map: i => i | join: \"', '\"\n echo 'y' if x else \"n'\"\n for i in (1..x) reversed limit: 2\n echo o[\"a b\"]\n echo o['k'].z\n endfor\n case x\n when 1, 2\n echo \"one'two\"\n else\n echo nil\n endcase\n%}",
-    "{% if s == \"a'\" or s == 'b\"' %}1{% endif %}{% assign v = \"'\" | append: '\"' %}{{ v }}{% for i in a limit: 1 %}{% cycle \"a'\", 'b\"' %}{% endfor %}{% case s %}{% when \"a'\" %}A{% endcase %}{% render 'p', v: \"'x'\" %}{% echo \"e'\" %}",
+    "{% if s == \"a'\" or s == 'b\"' %}1{% endif %}{% assign v = \"'\" | append: '\"' %}{{ v }}{% for i in a limit: 1 %}{% cycle \"a'\", 'b\"' %}{% endfor %}{% case s %}{% when \"a'\" %}A{% endcase %}{% render 'p', v: \"'x'\" %}{% echo \"e'\" %}",    # empty blocks whose tags carry whitespace control: the tag must survive serialisation even though its block is empty
+    "{% if b %}x  {%- else %}{% endif %}|{% unless b %}y  {%~ else %}{% endunless %}|{% for i in a %}z {%- else %}{% endfor %}|{% case x %}{% when 1 %}w  {%- else %}{% endcase %}|",
+    "{% if b %}  {%- elsif x %}{% else %}{% endif %}|{% case x %}{% when 1 %}{% when 2 -%}  v{% endcase %}|{% if b -%}  {% endif %}|{% for i in a -%}  {% endfor %}|{% capture c -%}  {% endcapture %}[{{ c }}]|{% with q: 1 -%}  {% endwith %}|",
 ]
 TEMPLATES = []
 for _s in CORPUS:
